@@ -17,7 +17,7 @@ P = {
              text='PROOF (partial): exactness of all five flat × ConvexPolygon pairs in both argument orders for every Valid polygon (kernels K0, K1 proved). For ConvexPolyhedron: SOUNDNESS of all five pairs in both orders (whatever is returned lies in the flat and in the body, a returned Segment is proper) and kernel K5 (membership test of a Valid polyhedron = convex hull of its vertices) are proved; COMPLETENESS (nothing of f ∩ K is missed; kernel K3) is not, and is decided per run by comparing implementation, model and an independent exact vertex enumeration on constructed degenerate positions (a test, not a proof).',
              ref='DESIGN.md §5 C02'),
  'C03': dict(tech='Lean 4 theorem (polygon×polygon with different carrier planes exact) + three-way correspondence against exact vertex enumeration',
-             text='PROOF (partial): SOUNDNESS is proved for every polygon/polyhedron pair, including the coplanar polygon case and polyhedron × polyhedron (every point of the result lies in both operands); polygon × polygon is proved EXACT whenever the carrier planes differ. Completeness of coplanar clipping, plane cuts and assembly (K2, K3, K4) is not proved and is decided per run by comparing implementation, executable model and exact vertex enumeration (dimension and vertex set, hence measures) on 9 templates. Rational poses only.',
+             text='PROOF (partial): SOUNDNESS is proved for every polygon/polyhedron pair, including the coplanar polygon case and polyhedron × polyhedron (every point of the result lies in both operands); polygon × polygon is proved EXACT in every relative position, coplanar overlaps / nesting / touching included (kernels K0, K1, K2, K6), never raising. Completeness of plane cuts and assembly (K3, K4) for polygon × polyhedron and polyhedron × polyhedron is not proved and is decided per run by comparing implementation, executable model and exact vertex enumeration (dimension and vertex set, hence measures) on 9 templates. Rational poses only.',
              ref='DESIGN.md §5 C03'),
  'C04': dict(tech='translator (isinstance chain + documentation table -> Lean) + decide over the finite tables + correspondence over all 49 pairs × 3 call forms',
              text='PROOF (full for the dispatch logic): the 49-cell table, None guard and fall-through are extracted from the current source and Lean decides totality, symmetry (same handler, swapped arguments), foreign-type rejection, coverage of the documentation table, and that the table-driven dispatcher equals the reference dispatcher. That handlers never hit "Bug detected" and return documented types is proved for flats (C01) and decided per run for polygons/polyhedra by the correspondence (function form, swapped operands, method form, None).',
